@@ -2,7 +2,6 @@ package c15
 
 import (
 	"fmt"
-	"os"
 	"sort"
 	"testing"
 
@@ -164,17 +163,11 @@ func classifyMasked(a, c *metasvc.VerifFSM, m mg.DumpOpts) []string {
 	return out
 }
 
-// mainMask is the set of known-finding classes the main campaign leaves out of the A/C comparison (each has a replay file that
-// shows it on its own).
-var mainMask = mg.DumpOpts{MaskCQLastRun: true, MaskMstID: true, MaskEventPre: true, MaskConflictErrorChoice: true}
+// mainMask: normalisations of known-finding classes applied to the A/C comparison of the main campaigns. Every class found so
+// far has been repaired in /repo (see known_findings_proposed.json), so nothing is masked; the replays stay as regression cases.
+var mainMask = mg.DumpOpts{}
 
-func envMask() mg.DumpOpts {
-	m := mainMask
-	if os.Getenv("C15_STRICT") != "" {
-		return mg.DumpOpts{}
-	}
-	return m
-}
+func envMask() mg.DumpOpts { return mainMask }
 
 func bucket(n int) string {
 	switch {
@@ -295,18 +288,8 @@ func addTotals(campaign string, g *mg.Gen) {
 	ev.Note(campaign, "ops_per_command_type_in_one_process", note)
 }
 
-// known applies the generator-side exclusions of the known-finding classes (each is shown on its own by a replay file).
-func known(p mg.Profile) mg.Profile {
-	if os.Getenv("C15_STRICT") != "" {
-		return p
-	}
-	p.NoDownSampleReportAcrossSparseGroups = true
-	p.NoInitShardsAboveGroupSize = true
-	p.NoExtremeTimes = true
-	p.NoMixedShardType = true
-	p.NoAmbiguousDropSubscription = true
-	return p
-}
+// known applies the generator-side exclusions of still-open known-finding classes. All C15 classes are repaired: none is left.
+func known(p mg.Profile) mg.Profile { return p }
 
 func broadProfile() mg.Profile {
 	return known(mg.Profile{Weights: mg.BroadWeights()})
